@@ -35,11 +35,15 @@ META = dict(
          "through a recording fake transport. The oracle checks call order, stop at first success, that the "
          "returned AuthResult (or AuthFailure.result) lists exactly the attempted sources in order, each with the "
          "very object it returned or raised, and that AuthFailure is raised exactly when nobody succeeded. "
+         "Reuse histories call authenticate() 2-4 times on ONE strategy instance (retry after failure, call after "
+         "success; fresh or the very same source objects): each call is judged by the same per-call model and "
+         "every earlier result object is re-compared with its snapshot after each later call. "
          "Holds on the executions produced.",
     note="Success is a source returning the empty list (what Transport.auth_* returns on success). BaseException "
          "subclasses that are not Exception (KeyboardInterrupt) are not generated. get_sources is given as "
          "generator, list or iterator.",
-    rule="case = one source list (kinds + outcomes + how get_sources yields); distinct = that description; "
+    rule="case = one source list (kinds + outcomes + how get_sources yields) or one reuse history (2-4 scripted "
+         "calls on one instance); distinct = that description; "
          "trivial (not counted) = nothing",
     assumptions=["a source 'succeeds' when its authenticate() returns without raising"],
 )
@@ -197,12 +201,26 @@ def exc_class(e):
     return "SSHException subclass" if isinstance(e, SSHException) else "non-SSH exception"
 
 
-def judge(ctx, desc, how, sources, outcomes, transport, log):
+def judge(ctx, desc, how, sources, outcomes, transport, log, strategy=None, wit=None, tag=""):
+    """Judge one authenticate() call. Returns the result list object (AuthResult or AuthFailure.result) when the
+    call was judged to the end, else None. `tag` qualifies signatures of later calls on a reused strategy."""
     n = len(sources)
     first_ok = next((i for i, o in enumerate(outcomes) if not isinstance(o, BaseException)), None)
     expect_calls = list(range(n if first_ok is None else first_ok + 1))
-    strategy = make_strategy(sources, how, log)
-    wit = dict(sources=desc, get_sources=how)
+    if strategy is None:
+        strategy = make_strategy(sources, how, log)
+    wit = wit or dict(sources=desc, get_sources=how)
+    if tag:
+        real = ctx
+
+        class _Tagged:  # same ctx, signatures prefixed with the call's position in the history
+            def __getattr__(self, name):
+                return getattr(real, name)
+
+            def violation(self, sig, what, witness=None):
+                return real.violation(tag + sig, what, witness)
+
+        ctx = _Tagged()
     raised = None
     result = None
     try:
@@ -289,6 +307,86 @@ def judge(ctx, desc, how, sources, outcomes, transport, log):
     ctx.count("real_source_class_calls", len(transport.seen))
     if how == "generator" and log.produced < len(called):
         ctx.violation("more sources attempted than were produced", "", wit)
+    return res
+
+
+# ---- histories: several authenticate() calls on ONE strategy instance -----------------------------------
+class Reused(AuthStrategy):
+    """get_sources serves whatever the harness scripted for the current call."""
+
+    def __init__(self):
+        super().__init__(ssh_config=paramiko.SSHConfig())
+        self.current = None  # (sources, how, log)
+
+    def get_sources(self):
+        sources, how, log = self.current
+        log.produced = len(sources)
+        if how == "list":
+            return list(sources)
+        return iter(tuple(sources))
+
+
+class ReusedGen(Reused):
+    def get_sources(self):
+        sources, how, log = self.current
+        for src in sources:
+            log.produced += 1
+            yield src
+
+
+def history_case(ctx, rng, hi):
+    how = rng.choice(["generator", "list", "iterator"])
+    strategy = ReusedGen() if how == "generator" else Reused()
+    same_objects = rng.random() < 0.4  # the very same source objects come back in every call
+    ncalls = rng.randint(2, 4)
+    hist = []
+    earlier = []  # (call number, result list object, snapshot [(source, outcome object)], was_failure)
+    fixed_n = rng.randint(1, 6)
+    stubs = None
+    for k in range(ncalls):
+        n = fixed_n if same_objects else rng.randint(0, 6)
+        # first call mostly fails (the retry story), later ones are mixed
+        p_ok = 0.0 if (k == 0 and rng.random() < 0.6) else rng.choice([0.0, 0.2, 0.5])
+        pattern = tuple(rng.random() < p_ok for _ in range(n))
+        if same_objects:
+            log = Log()
+            transport = FakeTransport(log)
+            if stubs is None:
+                stubs = [Stub(i, None, log) for i in range(n)]
+            desc, outcomes = [], []
+            for i, ok in enumerate(pattern):
+                oname = "ok" if ok else rng.choice(EXC_KINDS)
+                stubs[i].outcome = [] if ok else make_exc(rng, oname)
+                stubs[i].log = log
+                outcomes.append(stubs[i].outcome)
+                desc.append(("stub(reused object)", oname))
+            sources = stubs
+        else:
+            desc, sources, outcomes, transport, log = build_case(rng, pattern)
+        hist.append(dict(call=k + 1, sources=desc))
+        strategy.current = (sources, how, log)
+        tag = "" if k == 0 else "on a later authenticate() of the same strategy instance: "
+        res = judge(ctx, desc, how, sources, outcomes, transport, log, strategy=strategy,
+                    wit=dict(history=list(hist), get_sources=how, same_source_objects=same_objects), tag=tag)
+        if k > 0:
+            ctx.count("second_or_later_calls_judged")
+        if res is None:
+            return
+        # earlier results must still say what they said when they were handed out
+        for (kk, obj, snap, was_failure) in earlier:
+            ctx.count("earlier_results_recompared")
+            now = [(getattr(it, "source", None), getattr(it, "result", None)) for it in list(obj)]
+            if len(now) != len(snap) or any(a is not c or b is not d for (a, b), (c, d) in zip(now, snap)):
+                ctx.violation("an earlier %s changed after a later authenticate() on the same strategy instance"
+                              % ("AuthFailure.result" if was_failure else "returned result"),
+                              "result of call %d had %d entries, now %d" % (kk, len(snap), len(now)),
+                              dict(history=list(hist), get_sources=how))
+                return
+        first_ok = next((i for i, o in enumerate(outcomes) if not isinstance(o, BaseException)), None)
+        earlier.append((k + 1, res, [(it.source, it.result) for it in list(res)], first_ok is None))
+    ctx.case(("history", how, same_objects, repr(hist)),
+             sample=dict(kind="reuse history", calls=hist, get_sources=how, same_source_objects=same_objects) if hi < 1 else None)
+    ctx.count("reuse_histories_run")
 
 
 def run(ctx):
@@ -316,6 +414,11 @@ def run(ctx):
         ctx.case(("rand", pattern, how, tuple(desc)),
                  sample=dict(kind="random", succeeds=list(pattern), sources=desc, get_sources=how) if i < 2 else None)
         judge(ctx, desc, how, sources, outcomes, transport, log)
+    for hi in range(ctx.pick(3000, 20000)):
+        history_case(ctx, rng, hi)
+    ctx.require("reuse_histories_run", 2000)
+    ctx.require("second_or_later_calls_judged", 3000)
+    ctx.require("earlier_results_recompared", 3000)
     ctx.require("authenticate_calls_judged", 3000)
     ctx.require("source_attempts_observed", 8000)
     ctx.require("result_entries_compared", 8000)
